@@ -11,9 +11,6 @@
 (* stands for the maximal hash.                                                            *)
 EXTENDS Integers, Sequences, FiniteSets
 
-CONSTANT LimitProof   \* TRUE: a storage range cut at the limit while more slots follow counts as capped and is
-                      \*       proven (behaviour after the C48 fix); FALSE: as coded before (no proof, see LimitGap)
-
 SoftLimit == 2 * 1024 * 1024          \* softResponseLimit
 MaxLookups == 1024                    \* maxCodeLookups
 
@@ -66,7 +63,7 @@ SlotRun(szs, j, limit, hard, size) ==
   IF j > Len(szs) THEN [keys |-> << >>, size |-> size, abort |-> FALSE]
   ELSE IF size >= hard THEN [keys |-> << >>, size |-> size, abort |-> TRUE]
   ELSE LET size2 == size + szs[j] IN
-       IF 2 * j >= limit THEN [keys |-> <<j>>, size |-> size2, abort |-> LimitProof /\ j < Len(szs)]
+       IF 2 * j >= limit THEN [keys |-> <<j>>, size |-> size2, abort |-> j < Len(szs)]   \* more slots beyond the limit: capped, must be proven
        ELSE LET rest == SlotRun(szs, j + 1, limit, hard, size2) IN
             [keys |-> <<j>> \o rest.keys, size |-> rest.size, abort |-> rest.abort]
 
@@ -103,16 +100,12 @@ Verifiable(W, req, r) ==
      IF r.proof /\ x = Len(r.slots)
      THEN \A j \in 1..Len(l.keys) : l.keys[j] = FirstAtOrAfter(IF l.acct = 1 /\ req.origin >= 0 THEN req.origin ELSE 0) + j - 1
      ELSE Complete(W, req, l)
-(* TODO-KNOWN-FINDING: a request with zero/absent origin and a limit below the last slot   *)
-(* is answered with a truncated list and no proof (the limit break does not set abort).    *)
-LimitGap(W, req) == req.known /\ Len(req.accounts) > 0 /\ req.origin <= 0 /\ req.limit >= 0
-                    /\ req.limit <= 2 * Len(Slots(W, req.accounts[1])) - 1
 StorageRangesOK(W, req) ==
   LET r == StorageRanges(W, req) IN
   /\ r.dropped => (r.slots = << >> /\ ~r.proof)
   /\ \A x \in 1..Len(r.slots) : r.slots[x].keys # << >>
   /\ \A x, y \in 1..Len(r.slots) : x < y => r.slots[x].acct < r.slots[y].acct
-  /\ (Verifiable(W, req, r) \/ (~LimitProof /\ LimitGap(W, req)))
+  /\ Verifiable(W, req, r)
   \* budget: an account is only opened while below the soft limit, a slot only added while below the hard one
   /\ \A x \in 1..Len(r.slots) :
         LET before == SumAll(W, req, r, x - 1) IN before < Cap(req.bytes)
